@@ -15,7 +15,7 @@ Names imported from an earlier module (`from spox.opset.ai.onnx.v17 import _Abs,
 their defining module, like Python does. Nothing is imported or executed here; the live modules are
 compared with this extraction by the harness (harness/props/c11.py, `validate_against_live`).
 
-Known deviations (findings.d/C11.json, keys `<m>:<Op>:<attr>:absent`) get the obligation
+Known deviations (findings.d/C11.json, keys `<m>:<Op>:<attr>:absent`, `<m>:<Op>:schema:deprecated`) get the obligation
 `entryOKExcept [<attr>…] … = true` (conforms in everything but the listed schema attributes) and are
 listed in `deviating` instead of `table`.
 """
@@ -524,6 +524,8 @@ def known_exceptions() -> dict:
             parts = f.get("key", "").split(":")
             if f.get("status") == "known" and len(parts) == 4 and parts[3] == "absent":
                 out.setdefault((parts[0], parts[1]), []).append(parts[2])
+            if f.get("status") == "known" and len(parts) == 4 and parts[2:] == ["schema", "deprecated"]:
+                out.setdefault((parts[0], parts[1]), []).append("@deprecated")
     return out
 
 
@@ -634,7 +636,7 @@ def generate(write: bool = True) -> dict:
                     f"/-- known deviation (findings.d/C11.json): conforms in everything but the absent attribute(s) -/\n"
                     f"theorem {thm} : {stmt} := {proof}\n\n"
                 )
-                deviating.append((thm, entry))
+                deviating.append((thm, f"({lean_list(lean_str(x) for x in exc)}, {entry})"))
             else:
                 cout.append(f"theorem {thm} : {stmt} := {proof}\n\n")
                 good.append((thm, entry))
@@ -653,7 +655,11 @@ def generate(write: bool = True) -> dict:
             "theorem table_conforms : ∀ e ∈ table, entryOK e = true :=\n"
             "  fun e he => List.all_eq_true.mp table_all e he\n\n"
         )
-        cout.append("def deviating : List Entry :=\n  " + lean_list("\n   " + e for _, e in deviating) + "\n\n")
+        cout.append("/-- pairs with listed deviations (known findings), each with what is excepted -/\n")
+        cout.append("def deviating : List (List String × Entry) :=\n  " + lean_list("\n   " + e for _, e in deviating) + "\n\n")
+        cout.append(
+            "theorem deviating_conforms : ∀ d ∈ deviating, entryOKExcept d.1 d.2 = true := by decide +kernel\n\n"
+        )
         cout.append(f"end Generated.Conforms.{mid}\n")
         files[f"Conforms_{mid}.lean"] = "".join(cout)
         info["modules"][mid] = {
